@@ -10,7 +10,7 @@ EXPLANATION = (
     "queues them before the requests still sitting in the channel and filters manual PubAck requests out of the latter; "
     "next_request takes from the channel only on the `pending.is_empty()` edge and otherwise pops the front of pending; `pending.clear()` is called only in poll() under `!connack.session_present`; "
     "pending has no other remover (incl. append/mem::take/replace/swap taking it by &mut); "
-    "(R-C11-rotation, v4) last_puback is written by the PUBACK handler and determines the rotation point MqttState::clean() splits outgoing_pub at (so the oldest unacknowledged publish comes first). "
+    "(R-C11-rotation, v4) last_puback is written by the PUBACK handler (and re-anchored to last_pkid by poll() on the session-not-resumed edge, where the carried-over requests are dropped) and determines the rotation point MqttState::clean() splits outgoing_pub at (so the oldest unacknowledged publish comes first). "
     "NOT decided: that the rotation yields the original order across wrap-around for every ack history (index arithmetic over histories).")
 ASSUMPTIONS = ["rustc MIR construction is correct"]
 TECHNIQUE = "static analysis: dominance / edge rules on the event loop's MIR, who-may-call on the pending queue, provenance of the rotation point"
@@ -149,9 +149,34 @@ def rotation(ctx, prog):
         ctx.ok(rule, h.id, "last_puback = puback.pkid")
     else:
         ctx.violation(rule, h.id, "last_puback not recorded", "the PUBACK handler no longer records the last acknowledged id (rotation point of retransmission order)", site=h.fn_loc())
+    poll = prog.one(r"^eventloop::EventLoop::poll::\{closure#0\}$")
+    from .c08 import bool_switch_on_field
+    sp_sw = bool_switch_on_field(poll, "session_present")
+    clears = [bb for bb, t in poll.calls() if callee_path(t).endswith("VecDeque::<T, A>::clear") and (receiver_fields(poll, t) or [None])[-1] == "pending" and not poll.is_cleanup(bb)]
+    reanchor = []
     for body, bi, st in field_writes(prog, "last_puback"):
         if body.id.startswith("state::MqttState::") and body.name not in ("handle_incoming_puback", "new"):
             ctx.violation(rule, body.id, "writes last_puback", "last_puback is written outside the PUBACK handler", site=body.loc(st.get("sp")))
+        elif body.id == poll.id:
+            src = flatten_src(provenance(body, st["rv"]["a"])) if st["rv"]["k"] == "use" else []
+            from_pkid = bool(src) and all(getattr(x, "fields", None) and x.fields[-1] == "last_pkid" for x in src)
+            on_edge = bool(sp_sw) and dominates(poll, sp_sw[0][2], bi)
+            if from_pkid and on_edge:
+                reanchor.append(bi)
+            else:
+                ctx.violation(rule, body.id, "writes last_puback", "poll() rewrites the rotation point other than `last_puback = last_pkid` on the session-not-resumed edge", site=body.loc(st.get("sp")))
+        elif not body.id.startswith("state::MqttState::") and body.id.startswith(("eventloop::", "state::", "client::")):
+            ctx.violation(rule, body.id, "writes last_puback", "last_puback is written outside the PUBACK handler", site=body.loc(st.get("sp")))
+    # when the broker does not resume the session the carried-over requests are dropped, but the id counter runs on:
+    # the rotation point must be re-anchored at the counter, or the next session's ids wrap across a stale point
+    if clears and sp_sw:
+        if reanchor and all(any(dominates(poll, sp_sw[0][2], r) for r in reanchor) for _ in clears):
+            ctx.ok(rule, poll.id, "session not resumed: pending dropped and the rotation point re-anchored (last_puback = last_pkid)", site=poll.loc(poll.blocks[clears[0]]["t"].get("sp")))
+        else:
+            ctx.violation(rule, poll.id, "stale rotation point after a session that was not resumed",
+                          "on `!connack.session_present` poll() drops the carried-over requests but leaves last_puback where the old session's acks put it while last_pkid keeps counting: "
+                          "the next session's packet ids wrap across that stale point and clean() retransmits them out of order after the next failure",
+                          site=poll.loc(poll.blocks[clears[0]]["t"].get("sp")))
     c = state_fn(prog, "v4", "clean")
     sp = [(bb, t) for bb, t in c.calls() if re.search(r"split_at_mut$", callee_path(t))]
     okr = False
